@@ -25,6 +25,7 @@ EXCEPTIONS = {
     "IOError": lambda: IOError("injected"),
     "RuntimeError": lambda: RuntimeError("injected"),
 }
+IDLE_READ_LIMIT = 5000     # consecutive empty reads without a write: no request of any tree waits that long
 SERIAL_FAMILY = ["SerialException", "SerialTimeoutException", "PortNotOpenError"]
 # error lines as the firmware words them (EBB command documentation)
 ERROR_LINES = ["!8 Err: injected device error", "!0 Err: <text>", "!2 Err: TX Buffer overrun", "!3 Err: RX Buffer overrun",
@@ -42,6 +43,7 @@ class FakePort:
         self.op = 0                            # I/O operations in the current call
         self.reads = 0
         self.total_reads = 0
+        self.idle_reads = 0
         self.faults = {}                       # op index -> action tuple
         self.silent = False                    # drop all replies (device stopped answering)
         self.closed = False
@@ -75,6 +77,7 @@ class FakePort:
             self.log.append(("x", action[1]))
             raise EXCEPTIONS[action[1]]()
         data = bytes(data)
+        self.idle_reads = 0
         self.writes.append(data)
         self.log.append(("w", data))
         if action and action[0] == "silence":
@@ -112,6 +115,13 @@ class FakePort:
                 self._replace_next(action[1])
         line = self.rx.popleft() if self.rx else b""
         self.log.append(("r", line))
+        if line == b"":
+            self.idle_reads += 1
+            if self.idle_reads > IDLE_READ_LIMIT:
+                from pbt.sut import Runaway
+                raise Runaway("%d consecutive empty reads and the request is still polling" % self.idle_reads)
+        else:
+            self.idle_reads = 0
         return line
 
     def _replace_next(self, line):
